@@ -7,6 +7,7 @@ import ZorgVerif.Model.Template
 import ZorgVerif.Gen.FileLexer
 import ZorgVerif.Gen.QueryLexer
 import ZorgVerif.Model.Query
+import ZorgVerif.Model.Sql
 /-! Line protocol: one JSON request per line on stdin, one JSON answer per line on stdout. -/
 open Lean ZorgVerif
 
@@ -228,6 +229,52 @@ def handleQuery (op : String) (j : Json) : Except String Json := do
     pure (Json.mkObj [("out", jstr (Query.normalise txt.toList))])
   | _ => throw s!"unknown op {op}"
 
+def kindOfName : String → Except String Query.NoteKind
+  | "BASIC" => pure .basic | "OPEN_TODO" => pure .openTodo | "CLOSED_TODO" => pure .closedTodo
+  | "CANCELED_TODO" => pure .canceledTodo | "BLOCKED_TODO" => pure .blockedTodo | "PARENT_TODO" => pure .parentTodo
+  | s => throw s!"unknown kind {s}"
+
+def strListOf (j : Json) (k : String) : Except String (List Str) := do
+  let xs ← strsOf j k
+  pure (xs.map String.toList)
+
+def rowOf (j : Json) : Except String Filter.NoteRow := do
+  let zid ← strOf j "zid"
+  let path ← strOf j "path"
+  let kind ← kindOfName (← strOf j "kind")
+  let prio := match j.getObjValAs? Nat "priority" with | .ok n => some n | .error _ => none
+  let body ← strOf j "body"
+  let cdate ← dateOf j "cdate"
+  let mdate ← dateOf j "mdate"
+  let props ← varsOf (← j.getObjVal? "props")
+  pure { zid := zid.toList, path := path.toList, kind := kind, priority := prio, body := body.toList, cdate := cdate, mdate := mdate,
+         areas := ← strListOf j "areas", contexts := ← strListOf j "contexts", people := ← strListOf j "people",
+         projects := ← strListOf j "projects", links := ← strListOf j "links", props := props }
+
+def optBoolJson : Option Bool → Json
+  | some b => Json.bool b
+  | none => Json.null
+
+def handleFilter (op : String) (j : Json) : Except String Json := do
+  match op with
+  | "filter.eval" =>
+    let rows ← (← arrOf j "index").toList.mapM rowOf
+    let today ← dateOf j "today"
+    let dflt ← QJ.defaults
+    let qs ← strsOf j "queries"
+    let outs := qs.map (fun q =>
+      let toks := Lex.lex Gen.QueryLexer.rules q.toList
+      if toks.any (fun t => t.name == "<err>") then Json.mkObj [("err", "lexer")]
+      else match Query.parseToks dflt today toks with
+        | .error _ => Json.mkObj [("err", "parse")]
+        | .ok qq =>
+          match qq.where_ with
+          | none => Json.mkObj [("rows", Json.arr (rows.map (fun r => Json.arr #[jstr r.zid, true, true])).toArray)]
+          | some o => Json.mkObj [("rows", Json.arr (rows.map (fun r =>
+              Json.arr #[jstr r.zid, optBoolJson (Filter.satOr rows today r o), optBoolJson (Sql.sqlOr rows today r o)])).toArray)])
+    pure (Json.arr outs.toArray)
+  | _ => throw s!"unknown op {op}"
+
 def handle (line : String) : Json :=
   match Json.parse line with
   | .error e => Json.mkObj [("driver_error", s!"parse: {e}")]
@@ -242,6 +289,7 @@ def handle (line : String) : Json :=
         else if op.startsWith "template." then handleTemplate op j
         else if op.startsWith "lex." then handleLex op j
         else if op.startsWith "query." then handleQuery op j
+        else if op.startsWith "filter." then handleFilter op j
         else .error s!"unknown op {op}"
       match r with
       | .ok v => v
